@@ -37,6 +37,7 @@ def c09(ctx, res):
     path_trace(ctx, res)
     cfg = "MC_C09_quick.cfg" if ctx.quick else "MC_C09_thorough.cfg"
     ctx.gen_replay(res, "leaf", "MC_C09.tla", cfg)
+    ctx.gen_replay(res, "leaf", "MC_C09.tla", "MC_C09_bracket.cfg")    # a key that holds a closing bracket (only ".", "[" and "*" are excluded from keys)
     ctx.gen_replay(res, "leaf", "MC_Wide.tla", "MC_Wide_leaf.cfg")     # lists of 33 / 257 / 300 members: subscripts beyond one byte, every path resolved again
     # sessions: every history of LeafUseDotNotation (set / clear / toggle) and SetAttrPrefix calls interleaved with LeafNodes
     ctx.gen_replay(res, "mxj", "Mxj.tla", "Mxj_leaf.cfg" if ctx.quick else "Mxj_leaf_thorough.cfg", procs=8)
@@ -64,6 +65,8 @@ def c11(ctx, res):
 
 
 def c12(ctx, res):
+    # three key pairs in every order over nested new paths that share a parent
+    ctx.gen_replay(res, "newmap", "MC_C12.tla", "MC_C12_three.cfg")
     path_trace(ctx, res)
     cfg = "MC_C12_quick.cfg" if ctx.quick else "MC_C12_thorough.cfg"
     ctx.gen_replay(res, "newmap", "MC_C12.tla", cfg)
@@ -121,6 +124,8 @@ def c18(ctx, res):
     # XMPP streams: every history of HandleXMPPStreamTag (set / clear / toggle), key folding, white-space and attribute-prefix setters with the four
     # decoder entry points on a <stream:stream> document in between (the element is returned at its start tag only while the register is on)
     ctx.gen_replay(res, "mxj", "Mxj.tla", "Mxj_xmpp_quick.cfg" if ctx.quick else "Mxj_xmpp.cfg", procs=8)
+    # the sequence codec knows no attribute prefix and no case folding: prefixes that a tag may begin with ("_")
+    ctx.gen_replay(res, "mxj", "Mxj.tla", "Mxj_seqpfx.cfg", procs=4)
     ctx.gen_replay(res, "mxj", "Mxj.tla", "Mxj_vfp.cfg", procs=4)     # SetArraySize histories: results of queries are the caller's, whatever the size
     # calls of the legacy wrappers in between: they neither depend on more than the core does nor change a register
     ctx.gen_replay(res, "mxj", "Mxj.tla", "Mxj_legacy.cfg", procs=8)
@@ -149,8 +154,9 @@ def c01(ctx, res):
 
 def c02(ctx, res):
     t = "quick" if ctx.quick else "thorough"
-    for fam in ("names", "attrs", "vals", "vals1"):
+    for fam in ("names", "attrs", "vals", "vals1"):  # (+ vals2 below)
         ctx.gen_replay(res, "enc", "MC_C02.tla", "MC_C02_%s_%s.cfg" % (fam, t), procs=16)
+    ctx.gen_replay(res, "enc", "MC_C02.tla", "MC_C02_vals2.cfg", procs=16)      # numerals beyond int64, -Infinity, tab / newline in attribute values
     # sessions: the two escaping switches (set / clear / toggle) with decode, encode, sequence round trip and BeautifyXml in between
     ctx.gen_replay(res, "mxj", "Mxj.tla", "Mxj_esc.cfg", procs=8)
     xml_trace(ctx, res, "rt")
@@ -166,6 +172,7 @@ def c03(ctx, res):
     # ... and with NO attribute prefix (SetAttrPrefix("") / PrependAttrWithHyphen(false)): no key is an attribute
     ctx.gen_replay(res, "encv", "MC_C03.tla", "MC_C03_nopfx_quick.cfg" if ctx.quick else "MC_C03_nopfx_thorough.cfg", procs=8)
     ctx.gen_replay(res, "encv", "MC_C03.tla", "MC_C03_attr2.cfg", procs=8)    # up to three attribute entries on one element, empty and non-empty values
+    ctx.gen_replay(res, "encv", "MC_C03.tla", "MC_C03_nest.cfg", procs=8)     # lists inside lists, up to three members, seven nodes
     # Go-typed values a caller may put into a Map (int, int32, int64, float32, json.Number, []byte, []string, []map[string]interface{}):
     # the bytes are those of the untyped value (MC_C03t!TypeUp)
     ctx.gen_replay(res, "encv", "MC_C03t.tla", "MC_C03t_quick.cfg" if ctx.quick else "MC_C03t_thorough.cfg", procs=8)
@@ -181,6 +188,8 @@ def c04(ctx, res):
         ctx.gen_replay(res, "seq", "MC_C04.tla", "MC_C04_%s_%s.cfg" % (fam, t), procs=8)
     if not ctx.quick:
         ctx.gen_replay(res, "seq", "MC_C04.tla", "MC_C04_attrs_quick.cfg", procs=8)     # one element, up to three attributes
+    ctx.gen_replay(res, "seq", "MC_C04.tla", "MC_C04_wide.cfg", procs=8)      # lists of four and five like-named siblings, contiguous or interleaved
+    ctx.gen_replay(res, "seq", "MC_C04w.tla", "MC_C04w.cfg", procs=4)         # one element with up to 25 attributes and 25 children (two-digit sequence numbers)
     xml_trace(ctx, res, "seq")
     res.assumptions += ["documents start with the root element (a leading declaration or comment is the documented NoRoot result, covered by C15)",
                         "domain: text first in its element, at most one comment / directive / processing instruction per element",
@@ -219,6 +228,7 @@ def c14(ctx, res):
 def c16(ctx, res):
     ctx.gen_replay(res, "det", "MC_C16.tla", "MC_C16_quick.cfg" if ctx.quick else "MC_C16_thorough.cfg", procs=16)
     ctx.gen_replay(res, "det", "MC_C16.tla", "MC_C16_deep.cfg", procs=4)      # content ten levels deep
+    ctx.gen_replay(res, "seq", "MC_C04w.tla", "MC_C04w.cfg", procs=4)         # MapSeq in SEQUENCE order when there are more than ten entries (exact bytes of the sequence codec)
     # sessions: the DECODER's key-folding / structure registers set, cleared and toggled between encodings of a Map whose keys differ in case only
     # (encoding is a function of the Map and of the encoder registers; ascending BYTE order of keys)
     ctx.gen_replay(res, "mxj", "Mxj.tla", "Mxj_enc.cfg", procs=8)
@@ -264,6 +274,7 @@ def c19(ctx, res):
 def c20(ctx, res):
     ctx.gen_replay(res, "legacy", "MC_C20.tla", "MC_C20_quick.cfg" if ctx.quick else "MC_C20_thorough.cfg", procs=16)
     ctx.gen_replay(res, "legacy", "MC_C20.tla", "MC_C20_deep.cfg", procs=4)     # chains 3 to 10 levels deep with siblings after every hit
+    ctx.gen_replay(res, "legacy", "MC_C20.tla", "MC_C20_nest.cfg", procs=16)    # one key, six nodes: lists inside lists with maps inside
     # sessions: the wrappers are the core under the registers in force and leave the registers alone (x2j-wrapper DocToMap with its own
     # CastNanInf flag on; the four j2x JSON -> XML entry points on a non-canonical numeral under JsonUseNumber histories)
     ctx.gen_replay(res, "mxj", "Mxj.tla", "Mxj_legacy.cfg", procs=8)
